@@ -50,6 +50,8 @@ fn main() {
             for line in stdin.lock().lines() {
                 let line = line.unwrap();
                 writeln!(w, "{}", run::exec_guarded(&line)).unwrap();
+                // one result per line, visible at once: a hang is attributed to the right operation
+                w.flush().unwrap();
             }
         }
         _ => {
